@@ -102,10 +102,10 @@ class QuadraticLatitudeLongitudeInterpolation(
             else:
                 lla, llb = lon_a, lon_b
 
-            llab = fv2ll(self._fqv(va, vb, cv, 0.5))
+            llab = fv2ll(self._fqv(va, vb, cv, d1, s=0.5))
             del va, vb, cv
 
-            cll = self._fw(lla, llab, llab, s_i=0.5)
+            cll = self._fw(lla, llb, llab, d1, s_i=0.5)
             del llab
 
             u_l = self._fq(lla, llb, cll, d1)
